@@ -75,6 +75,9 @@ type iniSection []iniValue
 type ini struct {
 	File     string
 	Sections map[string]iniSection
+
+	// The section names in order of first appearance
+	names []string
 }
 
 // NewIniParser creates a new ini parser for a given Parser.
@@ -402,6 +405,7 @@ func readIni(contents io.Reader, filename string) (*ini, error) {
 	sectionname := ""
 
 	ret.Sections[sectionname] = section
+	ret.names = append(ret.names, sectionname)
 
 	var lineno uint
 
@@ -447,6 +451,7 @@ func readIni(contents io.Reader, filename string) (*ini, error) {
 			if section == nil {
 				section = make(iniSection, 0, 10)
 				ret.Sections[name] = section
+				ret.names = append(ret.names, name)
 			}
 
 			continue
@@ -526,7 +531,10 @@ func (i *IniParser) parse(ini *ini) error {
 	// Options that received a value from this ini file
 	var seen = make(map[*Option]bool)
 
-	for name, section := range ini.Sections {
+	// Apply the sections in the order of the file, not in map order
+	for _, name := range ini.names {
+		section := ini.Sections[name]
+
 		groups := i.matchingGroups(name)
 
 		if len(groups) == 0 {
